@@ -271,6 +271,30 @@ def rules(ctx, db):
             ctx.ob("R4", "submit-registers-key:" + f.name, ok,
                    "a freshly submitted (pending) key is registered with the cancel token carried by the waker", f)
 
+        # the token travels to the leaf futures inside the waker: with_cancel() must put *its* token into the Ext
+        # handed down, and the submit futures read it back from there
+        wcs = [f for f in db.fns.values() if f.id.startswith("compio_runtime::future::combinator::cancel::") and
+               f.kind == "closure" and calls(f, r"Ext::<'.*>::with_cancel$|Ext.*::with_cancel$")]
+        ctx.floor("R4", "with_cancel combinator bodies (Future + Stream)", len(wcs), 2)
+        for f in wcs:
+            wc = calls(f, r"Ext.*::with_cancel$")
+            nw = calls(f, r"waker::ext::ExtWaker::<'a, 'b>::new$|ExtWaker.*::new$")
+            pl = calls(f, r"ExtWaker.*::(poll|poll_next)$")
+            ok = len(wc) == 1 and len(nw) == 1 and len(pl) == 1
+            if ok:
+                ok = any(call_matches(x, r"Ext.*::with_cancel$") for x in arg_origin_calls(f, nw[0][1], 1, follow_fields=True)) and \
+                    f.cfg.dominates(nw[0][0], pl[0][0])
+                # the token comes from the combinator's own `cancel` field (captured through the projection)
+                from ..util import arg_origin_fields
+                src = arg_origin_fields(f, wc[0][1], 1)
+                ok = ok and any("cancel" in x for x in src)
+            ctx.ob("R4", "with_cancel-attaches-own-token:" + db.root_fn(f).name, ok,
+                   "WithCancel polls its inner future/stream with a waker whose Ext carries this combinator's token", f)
+        gc = [f for f in db.fns.values() if f.impl and (f.impl.get("trait") or "").endswith("ContextExt") and f.short == "get_cancel"]
+        for f in gc:
+            ctx.ob("R4", "get_cancel-reads-ext", bool(calls(f, r"waker::ext::get_ext$|::get_ext$")) and bool(calls(f, r"Ext.*::get_cancel$")),
+                   "the submit futures obtain the token from the waker's Ext", f)
+
         # ---------------- R5
         tp = [f for f in db.fns.values() if re.search(r"^<compio_runtime::time::future::Timeout<F> as core::future::future::Future>::poll$", f.name)]
         if not tp:
